@@ -61,6 +61,13 @@ def count_best(delivered, anchor, locked=()):
 def best_weight(delivered, anchor, locked=()):
     """Maximum weight of a chain from the anchor that starts with `locked` (None when `locked` itself is not a
     chain of delivered headers).  Walks every header up to the anchor once (memoised)."""
+    return best_weight_ties(delivered, anchor, locked)[0]
+
+
+def best_weight_ties(delivered, anchor, locked=()):
+    """-> (best_weight(...), number of distinct admissible chains that have that weight). A chain is identified by
+    its tip, so the count is the number of admissible tips whose total equals the maximum (the empty chain counts
+    when nothing is locked and nothing reaches the anchor)."""
     locked = list(locked)
     tip = locked[-1] if locked else anchor
     # total[h] = (weight of the chain anchor..h, passes_through_tip) or None when h does not reach the anchor
@@ -91,16 +98,22 @@ def best_weight(delivered, anchor, locked=()):
         exp = anchor
         for h in locked:
             if h not in delivered or delivered[h][0] != exp:
-                return None
+                return None, 0
             exp = h
     best = None
+    ties = 0
     for h in delivered:
         t = resolve(h)
-        if t is not None and t[1] and (best is None or t[0] > best):
-            best = t[0]
+        if t is not None and t[1]:
+            if best is None or t[0] > best:
+                best = t[0]
+                ties = 1
+            elif t[0] == best:
+                ties += 1
     if not locked and best is None:
         best = 0            # the empty chain
-    return best
+        ties = 1
+    return best, ties
 
 
 def linked_defect(chain, delivered, anchor):
@@ -234,6 +247,7 @@ def selftest(rng=None):
                 for c in chains:
                     for k in range(len(c) + 1):
                         assert best_weight(d, A, c[:k]) == brute_best_weight(d, A, c[:k]), (pf, weights, c[:k])
+                        assert best_weight_ties(d, A, c[:k])[1] == count_best(d, A, c[:k]), (pf, weights, c[:k])
                         compared += 1
     # and on random larger forests with partial delivery
     for _ in range(300):
@@ -249,6 +263,7 @@ def selftest(rng=None):
         k = rng.randrange(len(c) + 1)
         assert best_weight(d, A, c[:k]) == brute_best_weight(d, A, c[:k])
         assert best_weight(d, A) == brute_best_weight(d, A) == max(chain_weight(x, d) for x in chains)
+        assert best_weight_ties(d, A, c[:k])[1] == count_best(d, A, c[:k]) and best_weight_ties(d, A)[1] == count_best(d, A)
         compared += 2
     # op replay
     lst = []
